@@ -167,6 +167,14 @@ def generate(tier):
                         c = build(sh, list(ft), ts, [m0, m1], salt)
                         if c:
                             cases.append(c)
+    # field names that differ by the prefixes the templates use for their bindings (x, _x, __x, ...), and raw identifiers
+    from .common import underscorify, rawify
+    named = [x for x in cases if ':n' in x.key or '|n' in x.key]
+    for c in named[::4]:
+        for tr in (underscorify, rawify):
+            r_ = tr(c)
+            if r_:
+                cases.append(r_)
     seen, out = set(), []
     for c in cases:
         if c.key not in seen:
